@@ -8,6 +8,7 @@ import (
 	"encoding/json"
 	"flag"
 	"fmt"
+	"math"
 	"math/rand"
 	"os"
 	"sort"
@@ -854,6 +855,16 @@ func (q *strQuery) Many(s string) (interface{}, error) {
 	return nil, ggql.Errors{fmt.Errorf("first %s", s), &ggql.Error{Base: fmt.Errorf("second %s", s), Extensions: map[string]interface{}{s: s}}}
 }
 
+// numbers a resolver can hand over for Float / Float64 / Int positions: whatever becomes of them, the response is JSON
+func (q *strQuery) Big() interface{}    { return float64(1e39) }
+func (q *strQuery) Neg() interface{}    { return float64(-2.5e300) }
+func (q *strQuery) BigStr() interface{} { return "7e38" }
+func (q *strQuery) Bigs() interface{}   { return []interface{}{1.5, float64(1e39), float32(3), "1e300"} }
+func (q *strQuery) Inf() interface{}    { return math.Inf(1) }
+func (q *strQuery) Nan() interface{}    { return math.NaN() }
+func (q *strQuery) Infs() interface{}   { return []float64{math.Inf(-1), 1, math.NaN()} }
+func (q *strQuery) Huge() interface{}   { return uint64(1) << 63 }
+
 type strSchema struct{ Query *strQuery }
 
 // the characters response strings are built from: plain, every character with a short JSON escape, control
@@ -883,8 +894,20 @@ func gqlStringLiteral(s string) (string, bool) {
 
 func contentCases(enc *json.Encoder, rep *vh.Report) {
 	root := ggql.NewRoot(&strSchema{Query: &strQuery{}})
-	if err := root.ParseString("type Query { echo(s: String): String fail(s: String): String many(s: String): String }"); err != nil {
+	if err := root.ParseString("type Query { echo(s: String): String fail(s: String): String many(s: String): String " +
+		"big: Float neg: Float bigStr: Float bigs: [Float] inf: Float64 nan: Float64 infs: [Float64] huge: Int }"); err != nil {
 		vh.Die("content root: %s", err)
+	}
+	for _, q := range []string{"{ big }", "{ neg bigStr }", "{ bigs }", "{ inf }", "{ nan }", "{ infs }", "{ huge }", "{ big neg bigStr bigs inf nan infs huge }"} {
+		res := root.ResolveString(q, "", nil)
+		sk := skeleton(res)
+		sk["lex"] = lexemes(q)
+		sk["rejected"] = false
+		sk["text"] = q
+		sk["layout"] = 0
+		_ = enc.Encode(sk)
+		rep.Case("content|"+q, true)
+		rep.Class("content:numbers")
 	}
 	var strs []string
 	for _, a := range contentChars {
